@@ -294,7 +294,15 @@ def rules_cascade(run):
     run.check(good, r, mv.short, 'refuses to move a state into itself or one of its descendants', 'missing test', M)
     mv_alias = [x.targets[0].id for x in q.walk(M, False) if isinstance(x, ast.Assign) and isinstance(x.targets[0], ast.Name) and q.unparse(x.value) == 'self.state_for(%s)' % nm]
     hm = [n for c, f, k, n in prog.direct_writes(mv) if f == 'memory' and q.unparse(n.targets[0]) in [a_ + '.memory' for a_ in mv_alias]]
-    run.check(len(hm) == 1 and any('HistoryStateMixin' in a[1] for a in guard_atoms(hm[0])), r, mv.short, 'a moved history state forgets its memory', 'missing', M)
+    own = []
+    if hm:
+        from ..cfg import atoms as _atoms
+        for g in guards(hm[0]):
+            if not g[2].startswith('early'):
+                own += _atoms(g[0], g[1])
+    good_hm = len(hm) == 1 and len(own) == 1 and own[0][0] == 'truthy' and 'HistoryStateMixin' in own[0][1] and \
+        any(own[0][1].replace(' ', '').startswith('isinstance(%s,' % a_) for a_ in mv_alias)
+    run.check(good_hm, r, mv.short, 'a moved history state always forgets its memory', 'the reset is missing or depends on %s' % own, M)
     ws = {(f, k) for c, f, k, n in prog.direct_writes(mv) if c == 'Statechart'}
     app = [c for c in q.calls(M) if isinstance(c.func, ast.Attribute) and c.func.attr == 'append' and 'self._children' in q.unparse(c.func.value)
            and npar in q.unparse(c.func.value) and c.args and q.unparse(c.args[0]) == nm]
@@ -308,3 +316,76 @@ def check(run):
     rules_cascade(run)
     from .c12 import rules_registration
     rules_registration(run, 'C16', '.4')
+    from .c17 import rules_rename
+    rules_rename(run, 'C16', ('.5', '.6'))
+    rules_caches(run, 'C16', '.7')
+
+
+STRUCT_FIELDS = {'_states', '_parent', '_children', '_transitions', 'name', 'description', '_preamble'}
+
+
+def derived_caches(prog):
+    """Fields of Statechart written by a non-mutator method outside __init__: memoised query results."""
+    ci = prog.cls('Statechart')
+    muts = set(MUTATORS) | {'copy_from_statechart', '__init__'}
+    caches = {}
+    for m in ci.methods.values():
+        if m.name in muts:
+            continue
+        for c, f, k, n in prog.direct_writes(m):
+            if c == 'Statechart' and f not in STRUCT_FIELDS:
+                caches.setdefault(f, []).append((m, n))
+    return caches
+
+
+def cache_findings(prog):
+    """[(field, mutator FuncInfo)] : structural mutators that neither clear nor rewrite a derived cache."""
+    out = []
+    caches = derived_caches(prog)
+    for fld in caches:
+        # which structures does the memoising query depend on?
+        reads = set()
+        for m_, n_ in caches[fld]:
+            reads |= {f for (c, f) in prog.transitive_reads([m_]) if c == 'Statechart'}
+        required = set()
+        if reads & {'_states', '_parent', '_children'}:
+            required |= {'remove_state', 'rename_state', 'move_state'}      # edits that delete or rebind existing entries
+        if reads & {'_transitions'}:
+            required |= {'remove_transition', 'rotate_transition', 'remove_state', 'rename_state'}
+        for name in sorted(required):
+            m = prog.fn('Statechart.' + name)
+            w = prog.transitive_writes([m])
+            if not w.get(('Statechart', fld)):
+                out.append((fld, m))
+    return caches, out
+
+
+FIXTURE_EDITS = [
+    ('sismic/model/statechart.py', "        self._children[None] = []  # Root state\n", "        self._children[None] = []  # Root state\n        self._depth_fixture = {}\n"),
+    ('sismic/model/statechart.py', "        ancestors = self.ancestors_for(name)\n        return len(ancestors) + 1", "        if name not in self._depth_fixture:\n            self._depth_fixture[name] = len(self.ancestors_for(name)) + 1\n        return self._depth_fixture[name]"),
+]
+
+
+def rules_caches(run, P='C16', rid='.7'):
+    r = run.rule(P + rid, 'derived caches: every Statechart field memoised by a query method is cleared or rewritten by every edit that deletes or rebinds entries of the structures the query reads (a stale cached depth '
+                          'changes the order of transitions after a rename)')
+    prog = run.prog
+    caches, bad = cache_findings(prog)
+    for fld, m in bad:
+        run.fail(r, m.short, 'cache %s not invalidated' % fld, 'the memoised field %s (written by %s) survives this edit: queries answer from stale data afterwards'
+                 % (fld, sorted({x[0].short for x in caches[fld]})), m.node)
+    for fld in caches:
+        if not any(f == fld for f, m in bad):
+            run.ok(r, 'Statechart', 'cache %s invalidated by the edits that delete or rebind entries it depends on' % fld, None)
+    run.ok(r, 'Statechart', '%d derived cache field(s) found on the current tree' % len(caches), None)
+    # positive fixture: the detector must fire on a memoised depth_for without invalidation (in-memory overlay of the current tree)
+    from ..selftest.runner import apply_edits
+    from ..loader import Tree
+    from ..prog import Program
+    ov = apply_edits(FIXTURE_EDITS)
+    if ov is None:
+        run.note(P + rid + ': positive fixture not applicable to the current text of depth_for / __init__ (detector not re-proved on this run)')
+    else:
+        c2, b2 = cache_findings(Program(Tree(root=run.tree.root, overlay=dict(run.tree.overlay, **ov))))
+        run.floor(len(b2), 3, r, 'findings on the positive fixture (memoised depth_for without invalidation)')
+        run.ok(r, 'fixture', 'detector fires on the in-memory fixture: %d mutators flagged for %s' % (len(b2), sorted(c2)), None)
